@@ -14,6 +14,8 @@ def dense(M):
 def run(ctx):
     cuqi = import_cuqi()
     from cuqi.operator import FirstOrderFiniteDifference, SecondOrderFiniteDifference, PrecisionFiniteDifference
+    from harness.props.c20_eval import MARGINS, _mg, _ratio
+    MARGINS.clear()
     thorough = ctx.tier == "thorough"
     n1 = range(1, 41) if thorough else range(1, 15)
     n2 = range(2, 13) if thorough else range(2, 8)
@@ -84,6 +86,7 @@ def run(ctx):
                 ctx.case("diff1-dx", {**desc, "dx": dx})
                 Adx = impl_op(kind, order, bc, n, dx=dx)
                 ref = M / (dx if order == 1 else dx ** 2)
+                _mg("operator with dx vs stencil/dx^order (tol 1e-13)", _ratio(Adx, ref, 1e-13))
                 if not mclose(Adx, ref, 1e-13):
                     ctx.disagree(key + ":dx", {**desc, "dx": dx}, "stencil/dx^order", "differs")
                     ctx.fail(key + ":dx", {**desc, "dx": dx}, "stencil divided by dx^order", str(Adx.tolist())[:200])
@@ -150,11 +153,14 @@ def run(ctx):
             ctx.fail(key + ":rank", desc, f"rank of precision = {true_rank}", int(G._rank),
                      "GMRF reports a rank that is not the rank of its precision")
         logdet_true = float(np.sum(np.log(ev[ev > 1e-9 * max(1.0, ev.max())])))
+        if int(G._rank) == true_rank:
+            _mg("GMRF._logdet vs eigvalsh pseudo-log-determinant (tol 1e-6)", _ratio(float(G._logdet), logdet_true, 1e-6))
         if int(G._rank) == true_rank and not close(G._logdet, logdet_true, 1e-6):
             ctx.fail(key + ":logdet", desc, logdet_true, float(G._logdet),
                      "GMRF log-determinant is not the (pseudo) log-determinant of its precision")
         # sqrtprec^T sqrtprec = prec * P
         S = dense(G.sqrtprec)
+        _mg("sqrtprec^T sqrtprec vs prec*P (tol 1e-6; carries the code's sqrt(eps) regularisation)", _ratio(S.T @ S, prec * Pimpl, 1e-6))
         if not mclose(S.T @ S, prec * Pimpl, 1e-6):
             ctx.fail(key + ":sqrtprec", desc, "R^T R = prec*P", "differs", "square-root precision is not a square root of the precision")
         # logpdf evaluates the shifted variable through the operator, with the reported constants
@@ -162,12 +168,16 @@ def run(ctx):
         ref = 0.5 * (true_rank * (math.log(prec) - math.log(2 * math.pi)) + logdet_true) - 0.5 * prec * float((x - mean) @ (P @ (x - mean)))
         with quiet():
             got = float(G.logpdf(x))
+        if int(G._rank) == true_rank:
+            _mg("GMRF.logpdf vs documented density (tol 1e-7)", _ratio(got, ref, 1e-7))
         if int(G._rank) == true_rank and not close(got, ref, 1e-7):
             ctx.fail(key + ":logpdf", desc, ref, got, "GMRF.logpdf is not the documented density of D(x-mean)")
         # quadratic part independently of the constant (catches a missing shift even where the rank is a known finding)
         with quiet():
             q0 = float(G.logpdf(mean))
         quad = got - q0
+        if math.isfinite(q0) and math.isfinite(got):
+            _mg("GMRF logpdf(x)-logpdf(mean) vs quadratic form (tol 1e-8)", _ratio(quad, -0.5 * prec * float((x - mean) @ (P @ (x - mean))), 1e-8))
         if math.isfinite(q0) and math.isfinite(got) and not close(quad, -0.5 * prec * float((x - mean) @ (P @ (x - mean))), 1e-8):
             ctx.fail(key + ":quadratic", desc, "logpdf(x)-logpdf(mean) = -prec/2 |D(x-mean)|^2", quad,
                      "GMRF does not evaluate the shifted variable through the operator")
@@ -246,6 +256,7 @@ def run(ctx):
             ctx.disagree(key, reads[-1][1], len(vals), len(reads), "number of reads differs"); continue
         for (kind, desc, got, tol), mv in zip(reads, vals):
             if kind == "q":
+                _mg("history read q vs state-machine model (tol 1e-8)", _ratio(got, float(Fraction(mv)), tol))
                 ok = close(got, float(Fraction(mv)), tol)
             elif kind == "S":
                 ok = mclose(got, np.array([[float(v) for v in r] for r in pm(mv)]), tol)
@@ -290,6 +301,7 @@ def run(ctx):
             except Exception as e:
                 ctx.note(f"{fam} refused {desc}: {repr(e)[:80]}")
                 continue
+            _mg(f"{fam}.logpdf vs D(x-location) density (tol 1e-10)", _ratio(got, ref, 1e-10))
             if not close(got, ref, 1e-10):
                 ctx.disagree(f"{fam}:{pd}D:{bc}:logpdf", desc, ref, got)
                 ctx.fail(f"{fam}:{pd}D:{bc}:logpdf", desc, ref, got, f"{fam}.logpdf is not the documented density of D(x-location)")
